@@ -62,19 +62,27 @@ def migrate (f : Font V) (l : Lay) (op : Op) : Font V :=
     | none => f
   | _ => f
 
+def HWorld.withClock (hw : HWorld V) (c : Nat) : HWorld V := { hw with w := { hw.w with clock := c } }
+
+/-- one clock for the font: a stamp handed out in one layer is never handed out again in the other (a loose object
+carries its stamps across) -/
+def Font.sync (f : Font V) : Font V :=
+  let c := max f.l0.w.clock f.l1.w.clock
+  { l0 := f.l0.withClock c, l1 := f.l1.withClock c }
+
 def fstep (P : Params V) (T : Tables) (f : Font V) (l : Lay) (hop : HOp) : Font V × Res :=
   match hop with
   | .base (.register cls name) =>
     let r0 := hstep P T f.l0 hop
     let r1 := hstep P T f.l1 hop
-    ({ l0 := r0.1, l1 := r1.1 }, r0.2)
+    (Font.sync { l0 := r0.1, l1 := r1.1 }, r0.2)
   | .base op =>
     let f1 := migrate f l op
     let r := hstep P T (f1.get l) hop
-    (f1.set l r.1, r.2)
+    ((f1.set l r.1).sync, r.2)
   | _ =>
     let r := hstep P T (f.get l) hop
-    (f.set l r.1, r.2)
+    ((f.set l r.1).sync, r.2)
 
 /-- a public call in layer `l`: elaborated in the structure of that layer, then executed primitive by primitive -/
 def fcall (P : Params V) (T : Tables) (f : Font V) (l : Lay) (c : Call) : Font V × List Res :=
